@@ -279,6 +279,13 @@ def nnx_terms(depth):
         new.append(['all', t, u])
         new.append(['list', t, u])
       new.append(['tuple', t])
+    # a sequence is a disjunction wherever it appears, also as the single operand of a combinator
+    for t in cur[:6]:
+      for u in NNX_ATOMS[:6]:
+        new.append(['all', ['tuple', t, u]])
+        new.append(['all', ['list', t, u]])
+        new.append(['any', ['tuple', t, u]])
+        new.append(['not', ['list', t, u]])
     new.append(['any'])
     new.append(['all'])
     new.append(['list'])
@@ -402,7 +409,9 @@ NNX_SPLIT_ALPHABET = [['type', 'Param'], ['type', 'BatchStat'], ['type', 'P2'], 
                       ['pc', 'a'], ['pc', 'w'], ['not', ['type', 'Param']],
                       ['all', ['type', 'Param'], ['pc', 'w']],
                       ['list', ['tag', 't2'], ['type', 'BatchStat']],
-                      ['pin', [['a', 'w'], ['c']]], '...', True, False, None]
+                      ['pin', [['a', 'w'], ['c']]],
+                      ['all', ['tuple', ['type', 'Param'], ['type', 'BatchStat']]],
+                      '...', True, False, None]
 
 # variable assignments for the four paths: (type, tag) per path
 MODULE_FAMILY = [
